@@ -60,6 +60,9 @@ var (
 	ErrRtmpUnexpectedMsg = errors.New("lal.rtmp: unexpected msg")
 )
 
+// ErrStreamNameInvalid 输入流的名称包含"."、".."路径项或者反斜杠
+var ErrStreamNameInvalid = errors.New("lal: stream name invalid")
+
 func NewErrAmfInvalidType(b byte) error {
 	return fmt.Errorf("%w. b=%d", ErrAmfInvalidType, b)
 }
